@@ -163,6 +163,9 @@ func (s *verifC14Suite) c14RaceRound(c *C, k *kit.Check, idx int, nCalls int) {
 				setupStamp = snapsup.CohortKey
 			}
 		}
+		// the task sets of accepted calls are never linked to a change: drop
+		// them (and retired competing changes) the way pruning would
+		st.Prune(time.Time{}, 0, 10000*time.Hour, 0)
 		st.Unlock()
 
 		k.Count("race_calls", 1)
